@@ -1,6 +1,7 @@
 import MorfuseModel.PtrCell.Lemmas
 import MorfuseModel.Sched.Machine
 import MorfuseModel.Sched.MachineInstHost
+import MorfuseModel.Sched.MachineInstCalls
 /-!
 # C05 — host call / return protocol
 
@@ -105,6 +106,23 @@ theorem C05_machine_label_not_found_leaves_nothing {s : State} (h : Reachable s)
   have he := C05_label_not_found_leaves_nothing s label args hl
   rw [he]
   exact ⟨rfl, rfl, h⟩
+
+/-- **A killed thread leaves nothing in the host's slot, machine level.**  Destroying a thread
+    (`delete thread` from any cascade: object removal, `endon`, `UnregisterAll`, …) — for every fuel, in any
+    state with the structural invariant — changes no result slot; in particular `Reset()` in a reachable
+    state leaves every slot exactly as it was (a pending slot stays pending, it never receives a value). -/
+theorem C05_machine_killed_leaves_slot (fuel : Nat) {s : State} (hn : NInv s) (t : Nat) :
+    (deleteThread fuel s t).calls = s.calls ∧ ∀ c, (deleteThread fuel s t).getRet c = s.getRet c := by
+  have h := (cqAll fuel).dt [] s t hn
+  exact ⟨h, fun c => by unfold State.getRet; rw [h]⟩
+
+theorem C05_machine_reset_leaves_slots {s : State} (h : Reachable s) :
+    s.outOfFuel = true ∨ ∀ c, (hostReset s).getRet c = s.getRet c := by
+  refine (reachable_hinv2 h).map (fun hi c => ?_)
+  have hk := killAllInsts_ck hi.h.inv.n hi.j
+  show ((({ killAllInsts s with prog := [], progParams := [] } : State).calls.find? (·.1 == c)).map (·.2)).getD .none = _
+  unfold State.getRet
+  rw [← hk]
 
 /-! non-vacuity: synchronous result, pending result -/
 example : ((hostCall (hostScript {} [[.end_ (.lit 7)]] [0]) 0 []).1.getRet 1) = .val (.int 7) := by decide +kernel
